@@ -422,9 +422,9 @@ harnesses! {
     c05_bin_shift { prop: C05, feat: "c05", tier: quick, mode: full, unwind: 3, caps: "run=2,clone=1,drop=2" } => |s| c05::ev_bin(s, 8, 10, 64);
     c05_bin_cmp { prop: C05, feat: "c05", tier: quick, mode: full, unwind: 3, caps: "run=2,clone=1,drop=2" } => |s| c05::ev_bin(s, 10, 16, 64);
     c05_bin_logic { prop: C05, feat: "c05", tier: quick, mode: full, unwind: 3, caps: "run=2,clone=1,drop=2" } => |s| c05::ev_bin(s, 16, 18, 64);
-    c05_bin_mul24 { prop: C05, feat: "c05", tier: quick, mode: full, unwind: 3, caps: "run=2,clone=1,drop=2" } => |s| c05::ev_bin(s, 2, 3, 24);
-    c05_bin_div24 { prop: C05, feat: "c05", tier: quick, mode: full, unwind: 3, caps: "run=2,clone=1,drop=2" } => |s| c05::ev_bin(s, 3, 4, 24);
-    c05_bin_rem24 { prop: C05, feat: "c05", tier: quick, mode: full, unwind: 3, caps: "run=2,clone=1,drop=2" } => |s| c05::ev_bin(s, 4, 5, 24);
+    c05_bin_mul24 { prop: C05, feat: "c05", tier: thorough, mode: full, unwind: 3, caps: "run=2,clone=1,drop=2" } => |s| c05::ev_bin(s, 2, 3, 24);
+    c05_bin_div24 { prop: C05, feat: "c05", tier: thorough, mode: full, unwind: 3, caps: "run=2,clone=1,drop=2" } => |s| c05::ev_bin(s, 3, 4, 24);
+    c05_bin_rem24 { prop: C05, feat: "c05", tier: thorough, mode: full, unwind: 3, caps: "run=2,clone=1,drop=2" } => |s| c05::ev_bin(s, 4, 5, 24);
     c05_bin_mul64 { prop: C05, feat: "c05", tier: thorough, mode: full, unwind: 3, caps: "run=2,clone=1,drop=2" } => |s| c05::ev_bin(s, 2, 3, 64);
     c05_bin_div64 { prop: C05, feat: "c05", tier: thorough, mode: full, unwind: 3, caps: "run=2,clone=1,drop=2" } => |s| c05::ev_bin(s, 3, 4, 64);
     c05_bin_rem64 { prop: C05, feat: "c05", tier: thorough, mode: full, unwind: 3, caps: "run=2,clone=1,drop=2" } => |s| c05::ev_bin(s, 4, 5, 64);
@@ -561,7 +561,7 @@ harnesses! {
     // (pass-level step harnesses: src/step.rs is kept for the record, but its harnesses are not
     //  registered - the smallest one did not leave symbolic execution in 60 min, DESIGN.md 4/C02)
     c12_device_select { prop: C12, feat: "c12", tier: thorough, mode: full, unwind: 60, caps: "run=1,clone=1,drop=1" } => |s| c12::device_select(s);
-    c07_hex_4k { prop: C07, feat: "c07", tier: quick, mode: hex, unwind: 262, caps: "" } => |s| c07::hex_big(s, 4113);
+    c07_hex_4k { prop: C07, feat: "c07", tier: thorough, mode: hex, unwind: 262, caps: "" } => |s| c07::hex_big(s, 4113);
     c07_hex_64k { prop: C07, feat: "c07", tier: thorough, mode: hex, unwind: 4104, caps: "" } => |s| c07::hex_big(s, 65568);
     c05_bin_mul_edge { prop: C05, feat: "c05", tier: quick, mode: full, unwind: 3, caps: "run=2,clone=1,drop=2" } => |s| c05::ev_bin(s, 2, 3, 8);
     c05_bin_div_edge { prop: C05, feat: "c05", tier: quick, mode: full, unwind: 3, caps: "run=2,clone=1,drop=2" } => |s| c05::ev_bin(s, 3, 4, 8);
